@@ -20,7 +20,7 @@ python3 - "$S" <<'PY'
 import re,sys,json
 S=sys.argv[1]
 w=open(S+'/with_change.log').read(); wo=open(S+'/without_change.log').read()
-failed_with=sorted(set(re.findall(r'^test (\S+) \.\.\. FAILED',w,re.M)))
+failed_with=sorted(set(re.findall(r'test (\S+) \.\.\. FAILED',w)))
 baseline={'test_btc_rpc_precompiles_mainnet','test_btc_rpc_precompiles_signet'}
 compiled='error: could not compile' not in w and 'error[E' not in w
 suite_fail=[t for t in failed_with if t not in baseline and 'mutation' not in t and 'demo' not in t]
